@@ -41,6 +41,10 @@ func TestCrashImages(t *testing.T) {
 	rapid.Check(t, func(t *rapid.T) {
 		defer catchAbort()
 		maxFile := genMaxFile(t)
+		withPrune := rapid.IntRange(0, 3).Draw(t, "withPrune") == 0
+		if withPrune {
+			maxFile = rapid.SampledFrom([]uint32{1024, 1536, 2048}).Draw(t, "maxfilePrune") // several files, so that pruning removes some
+		}
 		e := newEnv(t, recCrash, "crash", maxFile)
 		var images []crashImage
 		defer func() {
@@ -51,7 +55,6 @@ func TestCrashImages(t *testing.T) {
 		}()
 		ffldb.VerifSetCacheLimits(e.db, 1<<40, 1000*time.Hour)
 		g := &opGen{e: e, maxDepth: 3}
-		withPrune := rapid.IntRange(0, 3).Draw(t, "withPrune") == 0
 		g.noPrune = !withPrune
 		g.newBlock(t)
 
@@ -111,6 +114,9 @@ func TestCrashImages(t *testing.T) {
 					for j := 0; j < nblk; j++ {
 						e.apply(p, Op{K: "store", B: []int{g.newBlock(t)}})
 					}
+					if withPrune && i >= 2 && p.prunes == 0 && rapid.Bool().Draw(t, "pruneNow") {
+						e.apply(p, Op{K: "prune", Target: uint64(maxFile) * uint64(rapid.IntRange(1, 3).Draw(t, "prunefiles"))})
+					}
 					if !commit {
 						return errRollback
 					}
@@ -149,6 +155,7 @@ func TestCrashImages(t *testing.T) {
 				snap(fmt.Sprintf("after the rollback following commit %d", committed), "commit-unflushed", lastFlushed, committed)
 			}
 		}
+		dbgDump(e)
 		e.checkCommitted("live database at the end of the workload")
 		pool := e.pool
 		// a fresh block for the write on each image
